@@ -91,6 +91,9 @@ def att(datasets, ref):
         return d.pixel_component_ids[int(name[3:])]
     if name.startswith('world'):
         return d.world_component_ids[int(name[5:])]
+    for cid in list(d.main_components) + list(d.derived_components):     # the dataset's own attribute (links add homonyms)
+        if cid.label == name:
+            return cid
     return d.id[name]
 
 
@@ -323,6 +326,15 @@ def realise(spec, scratch):
             elif ds.get('coords') == 'legacy':
                 from glue.core.coordinates import LegacyCoordinates
                 d.coords = LegacyCoordinates()
+            elif ds.get('coords') == 'wcs':
+                from astropy.wcs import WCS
+                w = WCS(naxis=2)
+                w.wcs.ctype = ['RA---TAN', 'DEC--TAN']
+                w.wcs.crval = [10, 20]
+                w.wcs.cdelt = [-0.5, 0.5] if ds.get('wcs_variant') else [-0.25, 0.25]
+                w.wcs.crpix = [2, 2] if ds.get('wcs_variant') else [1, 1]
+                w.wcs.set()
+                d.coords = w
         datasets.append(d)
         for c in ds['comps']:
             k = c['kind']
@@ -386,6 +398,17 @@ def realise(spec, scratch):
             dc.add_link(LH.MultiLink([a, a2], [b], forwards=FUNCS['add2'], backwards=FUNCS['split2']))
         elif k == 'LinkAligned':
             dc.add_link(LH.LinkAligned(datasets[ln['d1']], datasets[ln['d2']]))
+        elif k in ('WCSLink', 'WCSLink.affine', 'WCSLink.offset'):
+            from glue.plugins.wcs_autolinking.wcs_autolinking import WCSLink
+            wl = WCSLink(datasets[ln['d1']], datasets[ln['d2']])
+            if k != 'WCSLink':
+                st = np.random.get_state()
+                np.random.seed(12345)
+                try:
+                    wl = wl.as_affine_link(tolerance=1e-3 if k == 'WCSLink.affine' else 10)
+                finally:
+                    np.random.set_state(st)
+            dc.add_link(wl)
         elif k == 'JoinLink':
             dc.add_link(LH.JoinLink(cids1=[a], cids2=[b], data1=datasets[ln['a'][0]], data2=datasets[ln['b'][0]]))
         elif k == 'join_on_key':
@@ -418,9 +441,21 @@ def realise(spec, scratch):
 
 
 # ------------------------------------------------------------------ observing a session
+GEOM_DECIMALS = [None]      # set to 6 while judging records of shapely protocol 1 (WKT, six decimals)
+
+
+def geom_text(g):
+    import shapely
+    if GEOM_DECIMALS[0] is None:
+        return shapely.to_wkb(g, hex=True)
+    return shapely.to_wkt(g, rounding_precision=GEOM_DECIMALS[0])
+
+
 def canon(v):
     """numpy value(s) -> JSON-able, exact"""
     if isinstance(v, np.ndarray):
+        if v.dtype == object and v.size and type(v.flat[0]).__module__.startswith('shapely'):
+            return [geom_text(x) for x in v.ravel()]
         if v.dtype.kind == 'M':
             return [str(x) for x in v.ravel().tolist()] if v.dtype != object else [str(x) for x in v.ravel()]
         if v.dtype.kind == 'f':
@@ -785,7 +820,13 @@ def catalogue(tables):
         'JoinLink': [{'kind': 'JoinLink', 'a': [0, 'z'], 'b': [1, 'z']}],
         'BaseMultiLink': [{'kind': 'BaseMultiLink', 'a': [0, 'x'], 'b': [1, 'y']}],
         'LinkCollection': [{'kind': 'LinkCollection', 'a': [0, 'x'], 'b': [1, 'y']}],
+        'WCSLink': [{'kind': 'WCSLink', 'd1': 0, 'd2': 1}],
+        'AffineLink': [{'kind': 'WCSLink.affine', 'd1': 0, 'd2': 1}],
+        'OffsetLink': [{'kind': 'WCSLink.offset', 'd1': 0, 'd2': 1}],
     }
+    wcs_two = lambda: {'include_data': True, 'datasets': [image_ds('w1', (3, 4), 33, coords='wcs'), image_ds('w2', (3, 4), 43, coords='wcs', wcs_variant=True)],
+                       'links': [], 'subsets': [{'label': 's', 'state': {'cls': 'RangeSubsetState', 'd': 0, 'att': 'x', 'lo': 2, 'hi': 6}},
+                                                {'label': 'p', 'state': {'cls': 'RangeSubsetState', 'd': 0, 'att': 'pix1', 'lo': 1, 'hi': 2}}]}
     for row in fam[2]:
         cname = row['name'].rsplit('.', 1)[1]
         if cname in link_specs:
@@ -795,7 +836,7 @@ def catalogue(tables):
         else:
             lns = [{'kind': 'helper:' + row['name'], 'd1': 0, 'd2': 1, 'c1': ['x', 'y', 'z'], 'c2': ['x', 'y', 'z']}]
         for ln in lns:
-            sp = two()
+            sp = wcs_two() if ln['kind'].startswith('WCSLink') else two()
             if cname == 'LinkSameWithUnits':
                 sp['datasets'][0]['comps'][0]['units'] = 'm'
                 sp['datasets'][1]['comps'][1]['units'] = 'cm'
@@ -907,9 +948,14 @@ def random_spec(rng, tables):
             ds['meta'] = {'k%d' % j: rng.choice([1, 'two', [3, 4], 2.5]) for j in range(rng.randrange(1, 3))}
         dsets.append(ds)
     links = []
+    comp_of = list(range(nds))      # links must form a forest over the datasets: two different routes to one attribute would make its value ambiguous
     if nds > 1:
         for _ in range(rng.randrange(0, 3)):
             i, j = rng.sample(range(nds), 2)
+            if comp_of[i] == comp_of[j]:
+                continue
+            old_c, new_c = comp_of[j], comp_of[i]
+            comp_of = [new_c if c == old_c else c for c in comp_of]
             same_shape = dsets[i]['shape'] == dsets[j]['shape']
             k = rng.choice(['LinkSame', 'LinkSame', 'LinkTwoWay', 'ComponentLink', 'join_on_key', 'LinkAligned' if same_shape else 'LinkSame', 'IdentityLink'])
             if k == 'LinkAligned':
@@ -1061,3 +1107,396 @@ def shrink(spec, still_fails, budget=40):
             except Exception:
                 continue
     return cur
+
+
+# ====================================================================================== model correspondence streams
+class Labelled(object):
+    def __init__(self, label):
+        self.label = label
+
+
+class Nolabel(object):
+    pass
+
+
+def chars(s):
+    return (0, [ord(c) for c in s])
+
+
+def stream_naming(R):
+    """all sequences of GlueSerializer.id() calls over a small alphabet of labels (including labels that look like disambiguated names)"""
+    from glue.core.state import GlueSerializer
+    L = R.pick(5, 6)
+    alphabet = [('new', 'a'), ('new', 'a_0'), ('new', 'a_1'), ('new', 'b'), ('new', None), ('old', 0), ('old', 1), ('old', 2)]
+    seqs = []
+    for n in range(1, L + 1):
+        seqs.extend(itertools.product(alphabet, repeat=n))
+    seqs = [s for s in seqs if s[0][0] == 'new']        # the first registration is the main object
+    extra = [(('new', '__main__'), ('new', '__main__'), ('new', '__main___0'), ('new', '__main__')),
+             (('new', 'x'),) + (('new', 'x'),) * 12,
+             (('new', 'x'), ('new', 'x_0'), ('new', 'x_1'), ('new', 'x'), ('new', 'x'), ('new', 'x_2'), ('new', 'x'))]
+    seqs += extra
+    lines, impl = [], []
+    nfail = 0
+    for s in seqs:
+        objs = []
+        names_seen = {}
+        ops = []
+        gs = None
+        bad = None
+        for k, (kind, v) in enumerate(s):
+            if kind == 'new':
+                o = Labelled(v) if v is not None else Nolabel()
+                objs.append(o)
+            else:
+                if v >= len(objs):
+                    o = None
+                else:
+                    o = objs[v]
+            if o is None:
+                continue
+            oid = objs.index(o)
+            base = o.label if isinstance(o, Labelled) else type(o).__name__
+            if gs is None:
+                gs = GlueSerializer(o)
+                nm = gs.id(o)
+                ops.append((oid, [1, chars(base)]))
+            else:
+                nm = gs.id(o)
+                ops.append((oid, [0, chars(base)]))
+            if oid in names_seen and names_seen[oid] != nm and bad is None:
+                bad = 'object %d renamed from %r to %r' % (oid, names_seen[oid], nm)
+            names_seen[oid] = nm
+            if len(set(names_seen.values())) != len(names_seen) and bad is None:
+                bad = 'two objects share the name %r' % nm
+            if gs.object(nm) is not o and bad is None:
+                bad = 'name %r does not map back to its object' % nm
+        reg = [(objs.index(o), n) for n, o in gs._objs.items()]
+        impl.append(reg)
+        lines.append(enc((1, ops)))
+        R.count(('naming', tuple(s)), nontrivial=len(set(n for _, n in reg)) > 1, stream='naming', naming_len=len(s))
+        if bad and nfail < 10:
+            nfail += 1
+            R.fail('oracle', {'stream': 'naming', 'ops': [list(x) for x in s]}, {'why': bad})
+    outs = R.model(lines)
+    for s, reg, o in zip(seqs, impl, outs):
+        model = [(tag(e), ''.join(chr(c) for c in to_zs(kids(e)[0]))) for e in kids(o)]
+        if model != reg and nfail < 20:
+            nfail += 1
+            R.fail('correspondence', {'stream': 'naming', 'ops': [list(x) for x in s]}, {'model': model, 'impl': reg})
+    R.sample({'stream': 'naming', 'ops': [['new', 'a'], ['new', 'a'], ['new', 'a_0'], ['old', 1]]})
+    R.stream('naming', cases=len(seqs), exhaustive=True,
+             bound='all sequences of 1..%d id() calls over new objects labelled a, a_0, a_1, b or unlabelled and re-registrations of the first three objects; 3 directed long ones' % L)
+
+
+class GNode(object):
+    """test node for the graph codec: eager loader (references are loaded before the object exists)"""
+    lazy = False
+
+    def __init__(self, cls_code=0, fields=None):
+        self.label = 'n'
+        self.cls_code = cls_code
+        self.fields = fields if fields is not None else []
+
+    def __gluestate__(self, context):
+        def w(f):
+            if isinstance(f, list):
+                return [w(x) for x in f]
+            if isinstance(f, GNode):
+                return context.id(f)
+            return f
+        return dict(cls_code=self.cls_code, fields=[w(f) for f in self.fields])
+
+    @classmethod
+    def __setgluestate__(cls, rec, context):
+        def r(f):
+            if isinstance(f, list):
+                return [r(x) for x in f]
+            if isinstance(f, str):
+                return context.object(f)
+            return f
+        return cls(rec['cls_code'], [r(f) for f in rec['fields']])
+
+
+class LNode(GNode):
+    """two-phase (generator) loader: the object is registered before its references are loaded"""
+    lazy = True
+
+    @classmethod
+    def __setgluestate__(cls, rec, context):
+        def r(f):
+            if isinstance(f, list):
+                return [r(x) for x in f]
+            if isinstance(f, str):
+                return context.object(f)
+            return f
+        self = cls(rec['cls_code'], [])
+        yield self
+        self.fields = [r(f) for f in rec['fields']]
+
+
+def graph_cases(R):
+    """graphs as lists of (class code, fields); field = int literal | ('r', j) | ['l', field...]"""
+    def node_opts(n):
+        opts = [[], [7]]
+        opts += [[('r', j)] for j in range(n)]
+        opts += [[('r', j), ('r', k)] for j in range(n) for k in range(n)]
+        opts += [[['l', ('r', j), 3, ('r', k)]] for j in range(n) for k in range(n)]
+        return [(c, f) for c in (1, 100) for f in opts]
+    cases = []
+    for n in (1, 2):
+        for g in itertools.product(node_opts(n), repeat=n):
+            cases.append(list(g))
+    three = list(itertools.product(node_opts(3), repeat=3))
+    if R.quick():
+        three = R.subrng('graph3').sample(three, 3000)
+    cases += [list(g) for g in three]
+    rng = R.subrng('graphN')
+    for _ in range(R.pick(500, 5000)):
+        n = rng.randrange(4, 8)
+        g = []
+        for i in range(n):
+            fs = []
+            for _ in range(rng.randrange(0, 4)):
+                r = rng.random()
+                if r < 0.25:
+                    fs.append(rng.randrange(0, 9))
+                elif r < 0.8:
+                    fs.append(('r', rng.randrange(n)))
+                else:
+                    fs.append(['l'] + [('r', rng.randrange(n)) if rng.random() < 0.7 else rng.randrange(5) for _ in range(rng.randrange(0, 3))])
+            g.append((rng.choice([1, 2, 100, 100, 101]), fs))
+        cases.append(g)
+    return cases
+
+
+def build_graph(g):
+    nodes = [(LNode if c >= 100 else GNode)(c) for c, _ in g]
+
+    def mk(f):
+        if isinstance(f, tuple):
+            return nodes[f[1]]
+        if isinstance(f, list):
+            return [mk(x) for x in f[1:]]
+        return f
+    for nd, (c, fs) in zip(nodes, g):
+        nd.fields = [mk(f) for f in fs]
+    return nodes
+
+
+def enc_gfield(f):
+    if isinstance(f, tuple):
+        return (1, [f[1]])
+    if isinstance(f, list):
+        return (2, [enc_gfield(x) for x in f[1:]])
+    return (0, [f])
+
+
+def parse_mfield(t):
+    if tag(t) == 0:
+        return kids(t)[0][0]
+    if tag(t) == 1:
+        return ('r', kids(t)[0][0])
+    return ['l'] + [parse_mfield(x) for x in kids(t)]
+
+
+def stream_graph(R):
+    from glue.core.state import GlueSerializer, GlueUnSerializer, GlueSerializeError
+    cases = graph_cases(R)
+    lines = [enc((2, [0] + [(i, [c] + [enc_gfield(f) for f in fs]) for i, (c, fs) in enumerate(g)])) for g in cases]
+    outs = R.model(lines)
+    op_lines, op_idx = [], []
+    impl_load = {}
+    nfail = 0
+    for ci, (g, o) in enumerate(zip(cases, outs)):
+        nodes = build_graph(g)
+        gs = GlueSerializer(nodes[0])
+        text = gs.dumps()
+        rec = json.loads(text)
+        order = [nodes.index(ob) for ob in gs._objs.values()]          # registration order, as node numbers
+        name_idx = {nm: k for k, nm in enumerate(gs._objs.keys())}
+
+        def conv(f):
+            if isinstance(f, list):
+                return ['l'] + [conv(x) for x in f]
+            if isinstance(f, str):
+                return ('r', name_idx[f])
+            return f
+        recs = [(rec[nm]['cls_code'], [conv(f) for f in rec[nm]['fields']]) for nm in gs._objs.keys()]
+        m_order = to_zs(kids(o)[0])
+        m_recs = [(kids(t)[0][0], [parse_mfield(x) for x in kids(t)[1:]]) for t in kids(kids(o)[1])]
+        reach = len(order)
+        cyc = any(True for _ in [0]) and reach > 0
+        R.count(('graph', json.dumps(g)), nontrivial=reach > 1, stream='graph', graph_nodes=len(g), graph_reachable=reach)
+        if (order, recs) != (m_order, m_recs) and nfail < 10:
+            nfail += 1
+            R.fail('correspondence', {'stream': 'graph', 'graph': g}, {'impl': [order, recs], 'model': [m_order, m_recs]})
+        # operational load on the real records; the model gets the records in index form
+        try:
+            back = GlueUnSerializer.loads(text).object('__main__')
+            ok = True
+        except GlueSerializeError as e:
+            ok = False
+            back = None
+            if 'ircular' not in str(e):
+                R.fail('correspondence', {'stream': 'graph', 'graph': g}, {'why': 'unexpected load error %s' % e})
+        impl_load[ci] = ok
+        op_lines.append(enc((3, [(i, [c] + [enc_gfield(f) for f in fs]) for i, (c, fs) in enumerate(recs)])))
+        op_idx.append(ci)
+        if ok:
+            # the property on the real code: the restored graph saves to the same text (sharing, cycles, order preserved)
+            text2 = GlueSerializer(back).dumps()
+            if text2 != text and nfail < 10:
+                nfail += 1
+                R.fail('oracle', {'stream': 'graph', 'graph': g}, {'why': 'the restored object graph does not save to the same records', 'first': text[:300], 'second': text2[:300]})
+    outs2 = R.model(op_lines)
+    ncirc = 0
+    for ci, o in zip(op_idx, outs2):
+        m_ok = not is_err(o)
+        ncirc += 0 if impl_load[ci] else 1
+        if m_ok != impl_load[ci] and nfail < 20:
+            nfail += 1
+            R.fail('correspondence', {'stream': 'graph-load', 'graph': cases[ci]}, {'model_loads': m_ok, 'impl_loads': impl_load[ci]})
+    R.sample({'stream': 'graph', 'graph': [[100, [['r', 1], ['r', 1]]], [1, [['r', 0], 5]]]})
+    R.stream('graph', cases=len(cases), circular_reference_errors=ncirc, exhaustive=True,
+             bound='all graphs of 1-2 nodes and %s graphs of 3 nodes (eager or two-phase loader; fields: none, a literal, one or two references, a list of two references), '
+                   '%d random graphs of 4-7 nodes' % ('3000 sampled' if R.quick() else 'all', R.pick(500, 5000)))
+
+
+def stream_tables(R, T):
+    """the table predicates of the model per class (in_scope, pair_ok, ctor_ok): reported, and cross-checked with what the catalogue observes"""
+    names = T['names']
+    rows = [r for r in T['classes']]
+    outs = R.model([enc((4, [names[r['name']]])) for r in rows])
+    flags = {}
+    for r, o in zip(rows, outs):
+        if is_err(o):
+            R.fail('correspondence', {'stream': 'tables', 'class': r['name']}, {'why': 'class missing from the model table'})
+            continue
+        a, b, c = to_zs(o)
+        flags[r['name']] = (bool(a), bool(b), bool(c))
+        R.count(('tables', r['name']), nontrivial=bool(a), stream='tables')
+    return flags
+
+
+# ====================================================================================== entry points
+def classify(spec, result):
+    """known-finding key for exactly the recorded input class, else None"""
+    if result['status'] == 'load-failed' and "FunctionalLinkCollection' not found" in str(result['detail']) and \
+            any(ln['kind'] == 'FunctionalLinkCollection' for ln in spec.get('links', [])):
+        return 'load-failed:functional_link_collection'
+    return None
+
+
+SEEN_TYPES = set()
+
+
+def check_session(R, name, spec, via_app, stream, nfail):
+    r = trip(spec, R.scratch, via_app=via_app)
+    st = r['status']
+    SEEN_TYPES.update(r.get('types') or [])
+    key = json.dumps(spec, sort_keys=True, default=str)
+    R.count((stream, key, via_app), nontrivial=st == 'ok' and r.get('nontrivial', False), session_status=st, stream=stream,
+            session_kind=name.split(':')[0], include_data=spec.get('include_data'))
+    if st in BAD:
+        k = classify(spec, r)
+        if nfail[0] < 12 or k:
+            nfail[0] += 1
+            small = shrink(spec, lambda s: trip(s, R.scratch, via_app=via_app)['status'] == st) if not k else spec
+            rr = trip(small, R.scratch, via_app=via_app)
+            if rr['status'] != st:
+                small, rr = spec, r
+            R.fail('oracle', {'stream': stream, 'name': name, 'via_app': via_app, 'spec': small}, {'status': rr['status'], 'detail': rr['detail']}, key=k)
+    elif st == 'build-failed':
+        R.fail('correspondence', {'stream': stream, 'name': name, 'spec': spec}, {'why': 'the harness could not build its own session', 'detail': r['detail']})
+    return r
+
+
+def run(R):
+    sys.path.insert(0, os.path.join(os.path.dirname(os.path.dirname(os.path.abspath(__file__))), 'gen'))
+    import gen_tables
+    R.rule = ('naming / graph: exhaustive small-scope enumeration + seeded random graphs, non-trivial when more than one object gets named / is reachable; '
+              'sessions: one per (class of the regenerated class table, canonical argument set) x include_data on/off (catalogue) + seeded random sessions; '
+              'a session is non-trivial when it restores with a subset mask that is neither empty nor full or an attribute reachable across datasets; '
+              'distinct = distinct canonical specs')
+    T = gen_tables.collect()
+    if R.model_available:
+        stream_naming(R)
+        stream_graph(R)
+        flags = stream_tables(R, T)
+    else:
+        flags = {}
+    nfail = [0]
+    cat = catalogue(T)
+    statuses = {}
+    for k, (name, sp) in enumerate(cat):
+        r = check_session(R, name, sp, False, 'catalogue', nfail)
+        statuses.setdefault(name, []).append(r['status'])
+        if k % 3 == 0 and r['status'] == 'ok':
+            check_session(R, name, sp, True, 'catalogue_via_application', nfail)
+    norecipe = sorted(set(n for n, s in statuses.items() if all(x == 'no-recipe' for x in s)))
+    loud = sorted(set(n for n, s in statuses.items() if all(x == 'save-failed' for x in s)))
+    if norecipe:
+        R.note('classes found by introspection that the harness cannot instantiate with generic arguments: ' + ', '.join(norecipe))
+    if loud:
+        R.note('classes whose sessions fail loudly at save time (allowed by the property): ' + ', '.join(loud))
+    # every class in scope of the table theorem must have been exercised (or be reported)
+    loud_names = set(n.split(':', 1)[1] for n in loud if ':' in n)
+    missing = [nm for nm, (a, b, c) in flags.items() if a and nm not in SEEN_TYPES and nm.rsplit('.', 1)[1] not in loud_names
+               and T['classes'][[r['name'] for r in T['classes']].index(nm)]['family'] in (0, 1, 2, 4)]
+    if missing:
+        R.note('classes with instance state never written as a _type by a session that saved: ' + ', '.join(missing))
+    R.stream('catalogue', cases=len(cat), exhaustive=True,
+             bound='every SubsetState class (every Roi class inside RoiSubsetState; pretransforms), every link helper class, derived / datetime / NaN / dask components '
+                   'alone and seen through links, coordinates none/identity/affine/legacy x 1-3 dimensions, csv/npy/fits with and without data, RegionData, equal labels')
+    n = R.pick(110, 1500)
+    for i in range(n):
+        rng = R.subrng('session', i)
+        sp = random_spec(rng, T)
+        check_session(R, 'random:%d' % i, sp, i % 2 == 1, 'random', nfail)
+    R.sample({'stream': 'catalogue', 'name': cat[0][0], 'spec': cat[0][1]})
+    R.stream('random', cases=n, exhaustive=False, bound='1-3 datasets (1-d tables, 2-d / 3-d images; files when include_data is off), 1-4 subset groups with composites to depth 2, links forming a forest')
+
+
+def replay(R, case):
+    st = case.get('stream', '')
+    out = {'case': case}
+    if st in ('catalogue', 'random', 'catalogue_via_application'):
+        r = trip(case['spec'], R.scratch, via_app=bool(case.get('via_app')))
+        out.update(result=r, violates=r['status'] in BAD)
+    elif st == 'naming':
+        from glue.core.state import GlueSerializer
+        objs, gs, names = [], None, {}
+        bad = None
+        for kind, v in case['ops']:
+            if kind == 'new':
+                o = Labelled(v) if v is not None else Nolabel()
+                objs.append(o)
+            elif v < len(objs):
+                o = objs[v]
+            else:
+                continue
+            if gs is None:
+                gs = GlueSerializer(o)
+            nm = gs.id(o)
+            i = objs.index(o)
+            if names.get(i, nm) != nm:
+                bad = 'renamed'
+            names[i] = nm
+        if len(set(names.values())) != len(names):
+            bad = 'shared name'
+        out.update(names=names, violates=bool(bad), why=bad)
+    elif st.startswith('graph'):
+        from glue.core.state import GlueSerializer, GlueUnSerializer
+        g = [(c, [tuple(f) if isinstance(f, list) and f and f[0] == 'r' else f for f in fs]) for c, fs in case['graph']]
+        nodes = build_graph(g)
+        text = GlueSerializer(nodes[0]).dumps()
+        try:
+            back = GlueUnSerializer.loads(text).object('__main__')
+            text2 = GlueSerializer(back).dumps()
+            out.update(same=text == text2, violates=text != text2)
+        except Exception as e:
+            out.update(load_error=repr(e), violates=False)
+    else:
+        out.update(note='re-run ./check C02 --tier quick', violates=False)
+    return out
